@@ -160,7 +160,10 @@ def solve_sliced(base: List, extra: List, *, timeout_ms=20000, first_ms=None, mo
 def solve(assertions: List, *, timeout_ms=20000, first_ms=None, model_vars: Optional[List] = None,
           external=True) -> Tuple[str, Optional[Dict]]:
     """Return (status, model) where model maps str(var) -> python value for model_vars (if sat)."""
-    first = first_ms if first_ms is not None else min(timeout_ms, 3000 if external and CVC5 else timeout_ms)
+    # floating-point queries: cvc5 decides the kernels that occur here (division/multiplication by constants, rounding
+    # to integral) in under a second where z3 needs 2-9 s, so z3py only gets a short first attempt on those
+    fp = external and CVC5 and any(has_fp(a) for a in assertions)
+    first = first_ms if first_ms is not None else min(timeout_ms, (600 if fp else 3000) if external and CVC5 else timeout_ms)
     s = z3.Solver()
     s.set("timeout", int(first))
     for a in assertions:
